@@ -57,6 +57,7 @@ ASSUMPTIONS = [
     "byte for byte on every generated case)",
 ]
 TIME_LIMIT = {"quick": 1200, "thorough": 7200}
+from . import _w as _W; RULE, TRUSTED, ASSUMPTIONS = RULE + _W.RULE, TRUSTED + _W.TRUSTED, ASSUMPTIONS + _W.ASSUMPTIONS  # noqa: E402, E702
 
 RW = ["xyz", "sdf", "pdb"]  # + mol2, cube, fchk fields, fcidump/poscar structure layers (own flows)
 
